@@ -8,14 +8,15 @@ BASE_CMD = ("cd /repo && /venv/bin/python -m pytest -ra -q -p no:cacheprovider -
             "--continue-on-collection-errors")
 
 CHECKS = {
-    "C05": dict(ref="§4.5", tech="TLC model checking of Lexer.tla (Total/NoCrash/Progress) + replay of every exported behaviour + TLC trace validation; TLC-enumerated token edits of Norm/Viol derivations (Edits.tla) replayed through the whole pipeline",
-                text="TLC explores the tokenizer model exhaustively over seven focused alphabets (every string up to the stated length): every "
+    "C05": dict(ref="§4.5", tech="TLC model checking of Lexer.tla (Total/NoCrash/Progress) + replay of every exported behaviour + TLC trace validation; TLC-enumerated item edits (Edits.tla) and token edits (TokEdits.tla) of Norm/Viol derivations replayed through the whole pipeline",
+                text="TLC explores the tokenizer model exhaustively over eleven focused alphabets (every string up to the stated length): every "
                      "non-final state has a successor, every step consumes input, nothing crashes. Every explored string is replayed into the real "
                      "Lexer (no exception, token count bounded, tokens equal to the model's); differing executions are validated by TLC against "
                      "LexerTrace.tla. Very long runs are a deterministic family argued by the model's Progress property. Whole pipeline: Edits.tla applies "
-                     "every bounded item-level edit (delete / insert / replace / swap / truncate after a token) to every small conforming and violating derivation of "
-                     "Norm.tla/Viol.tla, for both file types; each edited program runs through Lexer + Registry.run under a watchdog: the outcome must be a verdict or a "
-                     "CParsingError, never another exception or a timeout.",
+                     "every bounded item-level edit (delete / insert / replace / swap / truncate after an item) to every selected small conforming derivation of "
+                     "Norm.tla, for both file types; TokEdits.tla enumerates every TOKEN-level edit (40 token texts) up to the position bound, applied to the token lists "
+                     "(the tool's own spans) of seed-0 corpus programs of all four kinds (.c/.h, conforming / one violation); each edited program runs through Lexer + "
+                     "Registry.run under a CPU-time watchdog: the outcome must be a verdict or a CParsingError, never another exception or a timeout.",
                 note="bounded alphabets/lengths; observation through the public iterator and Lexer._Lexer__pos"),
     "C09": dict(ref="§4.9", tech="TLC model checking of Lexer.tla (PosInv against the closed-form TruePos) + replay + TLC trace validation of positions",
                 text="TLC checks on every string of the configured alphabets that the incrementally maintained (line, column) of the "
